@@ -106,4 +106,15 @@ def gen(tier, rng, boost=1):
         ops.append(f"mp.obj2 {rng.choice(['mem', 'stream'])} {';'.join(str(rng.randrange(32)) for _ in range(rng.choice([1, 2, 4])))}")
     ops.append("mp.obj mem " + ";".join(str(m) for m in range(64)))
     ops.append("mp.obj stream " + ";".join(str(m) for m in reversed(range(64))))
+    # what the writer is handed for chrono values: time_point / duration -> CBinTimestamp (seconds floor, nanoseconds 0..999999999),
+    # incl. negative and sub-second values (C14's generator, ops bin.*)
+    from .C14 import gen as gen_c14
+    ops += [o for o in gen_c14(tier, rng, boost) if o.startswith("bin.")][: (6000 if tier == "quick" else 400000)]
     return ops
+
+
+def adjust_verdict(op, impl, verdict):
+    """bin.* ops are borrowed from C14; its recorded chrono classes are C14's business"""
+    if op.startswith("bin.") and verdict.startswith("known:"):
+        return "ok"
+    return verdict
